@@ -20,10 +20,16 @@ static std::atomic<uint32_t> max_input_length_{
     std::numeric_limits<uint32_t>::max()};
 
 void set_max_input_length(uint32_t length) {
+#ifdef ADA_URL_ADA_VERIF
+  ada_verif_yield(41);
+#endif
   max_input_length_.store(length, std::memory_order_relaxed);
 }
 
 uint32_t get_max_input_length() {
+#ifdef ADA_URL_ADA_VERIF
+  ada_verif_yield(40);
+#endif
   return max_input_length_.load(std::memory_order_relaxed);
 }
 
@@ -43,6 +49,11 @@ namespace {
 //               (credentials, IDNA, IPv4/6, tabs/newlines, relative URLs, ...)
 std::optional<bool> try_can_parse_absolute_fast(
     std::string_view input) noexcept {
+#ifdef ADA_URL_ADA_VERIF
+  if (ada_verif_buggify(102)) {
+    return std::nullopt;  // decline: full parser decides
+  }
+#endif
   const uint8_t* b = reinterpret_cast<const uint8_t*>(input.data());
   size_t len = input.size();
 
@@ -320,6 +331,9 @@ bool can_parse(std::string_view input, const std::string_view* base_input) {
   // until we need it (common absolute-fast true/false cases).
   if (base_input == nullptr) {
     if (const auto r = try_can_parse_absolute_fast(input)) {
+#ifdef ADA_URL_ADA_VERIF
+      ada_verif_probe(202);
+#endif
       if (!*r) {
         return false;
       }
